@@ -291,6 +291,9 @@ class Expander:
             if t.kind == "ident" and t.text in ("assert", "panic") and i + 1 < len(toks) and toks[i + 1].text == "!" and (i == 0 or toks[i - 1].text not in (".", "::")):
                 edits.append((t.start, t.end, "vx_%s_m" % t.text))
                 self.panic_macros += 1
+            if getattr(self, "alloc_budget", False) and t.kind == "ident" and t.text == "Vec" and i + 2 < len(toks) and toks[i + 1].text == "::" and toks[i + 2].text == "with_capacity":
+                edits.append((t.start, toks[i + 2].end, "vx_vec_with_capacity"))
+                self.rewrites.append("%s: `Vec::with_capacity` -> budgeted allocator stand-in `vx_vec_with_capacity` (C14 allocation obligation)" % rel)
             i += 1
         # closure `_` params: regex on code outside strings/comments is good enough given the lexer above
         for m in re.finditer(r"\|\s*_\s*\|", text):
@@ -982,6 +985,11 @@ class Expander:
                 i += 1
                 continue
             if s.startswith("//@rlimit"):
+                i += 1
+                continue
+            if s == "//@alloc_budget":
+                # every `Vec::with_capacity(n)` in extracted code of this unit becomes the budgeted allocator stand-in
+                self.alloc_budget = True
                 i += 1
                 continue
             if s == "//@canary":
